@@ -168,3 +168,22 @@ add('C04', 'grouping-tolerance', GIO, GROUP, GROUP.replace("prob == prev_prob", 
 add('C04', 'grouping-le-merges-everything', GIO, GROUP, GROUP.replace("prob == prev_prob", "prob <= prev_prob"), 'fire', 'C04.R5')
 add('C04', 'group-prob-not-advanced', GIO, "                else:\n                    prev_prob = prob\n\n                    item = {", "                else:\n                    item = {", 'fire', 'C04.R5')
 add('C04', 'dispatch-drops-C', PGF, "        # If it is a capitalization mask\n        elif category == 'C':\n\n            mask_len = len(self.grammar[pt_type][index]['values'][0])\n\n            # Split off the part of the word we need to modify with the mask\n            start_word = [cur_guess[:- mask_len]]\n            end_word = cur_guess[- mask_len:]\n\n            for mask in", "        # If it is a capitalization mask\n        elif category == 'c':\n\n            mask_len = len(self.grammar[pt_type][index]['values'][0])\n\n            # Split off the part of the word we need to modify with the mask\n            start_word = [cur_guess[:- mask_len]]\n            end_word = cur_guess[- mask_len:]\n\n            for mask in", 'fire', 'C04.R1')
+
+# ---- C03 ------------------------------------------------------------------------------------------------------
+SPD = 'lib_trainer/save_pcfg_data.py'
+CFG_ = 'lib_trainer/config_file.py'
+PARS = 'lib_trainer/pcfg_password_parser.py'
+ALPHA = 'lib_trainer/detection_rules/alpha_detection.py'
+add('C03', 'folders-swapped', SPD, [('folder = os.path.join(base_directory, "Digits")', 'folder = os.path.join(base_directory, "Other_")'), ('folder = os.path.join(base_directory, "Other")', 'folder = os.path.join(base_directory, "Digits")'), ('"Other_"', '"Other"')], None, 'fire', 'C03.R1')
+add('C03', 'counters-swapped-in-parse', PARS, [("self._update_counter_len_indexed(self.count_digits, found_digit_strings)", "self._update_counter_len_indexed(self.count_other, found_digit_strings)"), ("self._update_counter_len_indexed(self.count_other, found_other_strings)", "self._update_counter_len_indexed(self.count_digits, found_other_strings)")], None, 'fire', 'C03.R1')
+add('C03', 'config-name-changed', CFG_, 'config.set(section, "name", "K")', 'config.set(section, "name", "k")', 'fire', 'C03.R1')
+add('C03', 'config-directory-typo', CFG_, 'config.set(section, "directory", "Keyboard")', 'config.set(section, "directory", "Keyboards")', 'fire', 'C03.R1')
+add('C03', 'config-filelist-from-other-counter', CFG_, "add_digits(config,create_filename_list(pcfg_parser.count_digits))", "add_digits(config,create_filename_list(pcfg_parser.count_other))", 'fire', 'C03.R1')
+add('C03', 'year-file-renamed', SPD, "year_grouping = {'1': pcfg_parser.count_years}", "year_grouping = {'years': pcfg_parser.count_years}", 'fire', 'C03.R1')
+add('C03', 'loader-prefix-wrong', GIO, "        name = config.get('name') + file.split('.')[0]\n        grammar[name] = []", "        name = config.get('directory')[0] + file.split('.')[0]\n        grammar[name] = []", 'fire', 'C03.R1')
+add('C03', 'loader-skips-keyboard', GIO, "    if not _load_from_multiple_files(grammar, config['BASE_K'], base_directory, encoding):", "    if False and not _load_from_multiple_files(grammar, config['BASE_K'], base_directory, encoding):", 'fire', 'C03.R1')
+add('C03', 'mask-from-lowered-string', ALPHA, "                    for letter in section[0][current_start:current_start+len(word)]:", "                    for letter in working_string[current_start:current_start+len(word)]:", 'fire', 'C03.R2')
+add('C03', 'mask-not-advanced', ALPHA, "                    current_start +=len(word)\n", "", 'fire', 'C03.R2')
+add('C03', 'label-len-plus-1', ALPHA, "'A' + str(len(word))", "'A' + str(len(word) + 1)", 'fire', 'C03.R2')
+add('C03', 'C-inserted-before-A', GIO, "                replacement.insert(i+1,'C' + len_str)", "                replacement.insert(i,'C' + len_str)", 'fire', 'C03.R3')
+add('C03', 'C-with-wrong-length', GIO, "                len_str = replacement[i][1:]", "                len_str = replacement[i][2:]", 'fire', 'C03.R3')
